@@ -470,6 +470,38 @@ func findFullCollisions(seed uint64) {
 	}
 }
 
+// prefixColl: pairs (a, b) with the same 32-bit hash where a is a proper prefix of b: a reader that
+// compared only len(lookup key) bytes at the stored key's position would take b's record for a, and
+// a's record followed by a value starting with b[len(a):] for b.  One known pair is checked against
+// the hash the code uses now; if the hash ever changes, a bounded chain search (all prefixes of random
+// 64-byte strings, about 2^32/2000 chains expected) looks for another.
+var prefixColl [][2][]byte
+
+func findPrefixCollisions(seed uint64) {
+	if prefixColl != nil {
+		return
+	}
+	prefixColl = [][2][]byte{}
+	a, b := []byte("lprsn"), []byte("lprsnljmknzwwxtslhcmuvvdhtuvsgtriccftphkcqbddrxngyfzsxcbjxtnjberyse")
+	if spooky.Hash32(a) == spooky.Hash32(b) {
+		prefixColl = append(prefixColl, [2][]byte{a, b})
+		return
+	}
+	r := hlib.NewRng(seed, 161616)
+	for c := 0; c < 3000000 && len(prefixColl) == 0; c++ {
+		s := r.Bytes(64, []byte("abcdefghijklmnopqrstuvwxyz"))
+		seen := map[uint32]int{}
+		for n := 2; n <= len(s); n++ {
+			h := spooky.Hash32(s[:n])
+			if m, ok := seen[h]; ok {
+				prefixColl = append(prefixColl, [2][]byte{cp(s[:m]), cp(s[:n])})
+				break
+			}
+			seen[h] = n
+		}
+	}
+}
+
 // collide builds a list whose keys all fall into one table and start at chosen slots.
 func genCollide(r *hlib.Rng) ([]kv, [][]byte, string) {
 	used := map[string]bool{}
@@ -525,7 +557,34 @@ func genSmall(r *hlib.Rng) ([]kv, [][]byte, string) {
 	var kvs []kv
 	var abs [][]byte
 	class := ""
-	switch r.Pick([]int{1, 6, 4, 3, 6, 2, 1, 2}) {
+	switch r.Pick([]int{1, 6, 4, 3, 6, 2, 1, 2, 2}) {
+	case 8:
+		// equal hash AND one key a proper prefix of the other (see prefixColl)
+		class = "prefixhash"
+		if len(prefixColl) == 0 {
+			class = "random"
+			kvs = append(kvs, kv{smallKey(r), smallVal(r)})
+			break
+		}
+		pr := prefixColl[r.Intn(len(prefixColl))]
+		a, b := pr[0], pr[1]
+		rest := b[len(a):]
+		switch r.Intn(3) {
+		case 0: // only the long key is written: the short one is absent
+			kvs = append(kvs, kv{b, smallVal(r)})
+			abs = append(abs, a)
+		case 1: // only the short key, with a value that continues like the long key: the long one is absent
+			kvs = append(kvs, kv{a, append(cp(rest), smallVal(r)...)})
+			if r.Chance(1, 2) {
+				kvs = append(kvs, kv{a, cp(rest)})
+			}
+			abs = append(abs, b)
+		default: // both, interleaved: each has its own values only
+			kvs = append(kvs, kv{a, smallVal(r)}, kv{b, smallVal(r)}, kv{a, append(cp(rest), 'x')}, kv{b, smallVal(r)})
+		}
+		for i := r.Intn(4); i > 0; i-- {
+			kvs = append(kvs, kv{smallKey(r), smallVal(r)})
+		}
 	case 7:
 		// keys of 90..200 bytes: the streaming hasher (writer) and the one-shot hash take different
 		// code paths from 96 bytes on
@@ -886,6 +945,7 @@ func run(a *hlib.Args, e *hlib.Emitter) error {
 		return nil
 	}
 	findFullCollisions(a.Seed)
+	findPrefixCollisions(a.Seed)
 	r := hlib.NewRng(a.Seed, 16)
 
 	// fixed part: the shapes that must always be present
